@@ -26,6 +26,22 @@ func TestReplay(t *testing.T) {
 				_, o, err := m.run(mc.Req)
 				return o, err
 			}
+			if kind == "cfs-links" {
+				if x.rec != rec01 {
+					return vev.Outcome{}, nil
+				}
+				var lc LinkCase
+				if err := json.Unmarshal(raw, &lc); err != nil {
+					return vev.Outcome{}, err
+				}
+				e, err := newLinkEnv()
+				if err != nil {
+					return vev.Outcome{}, err
+				}
+				defer os.RemoveAll(e.base)
+				_, o, err := evalLinks(e, lc)
+				return o, err
+			}
 			if kind == "cfs-perm" {
 				var pc PermCase
 				if err := json.Unmarshal(raw, &pc); err != nil {
